@@ -1015,7 +1015,9 @@ class Reaction(Object):
         -------
         Reaction - original reaction (self) with the added properties.
         """
-        self.add_metabolites(other._metabolites, combine=True)
+        # Use a copy: the undo recorded in a context must not depend on later
+        # changes to `other` (or to `self` when a reaction is added to itself).
+        self.add_metabolites(other._metabolites.copy(), combine=True)
         rule1 = self.gene_reaction_rule.strip()
         rule2 = other.gene_reaction_rule.strip()
         if rule1 != "" and rule2 != "":
@@ -1070,7 +1072,7 @@ class Reaction(Object):
         -------
         Reaction - self with the subtracted metabolites.
         """
-        self.subtract_metabolites(other._metabolites, combine=True)
+        self.subtract_metabolites(other._metabolites.copy(), combine=True)
         return self
 
     def __imul__(self, coefficient: float) -> "Reaction":
@@ -1304,10 +1306,11 @@ class Reaction(Object):
                     )
                 )
             else:
-                # Reset them with add_metabolites
+                # Reset them with add_metabolites. A metabolite that was not
+                # part of the reaction before is reset to 0, i.e., removed again.
+                old_by_id = {met.id: coef for met, coef in old_coefficients.items()}
                 mets_to_reset = {
-                    key: old_coefficients[model.metabolites.get_by_any(key)[0]]
-                    for key in metabolites_to_add.keys()
+                    key: old_by_id.get(str(key), 0) for key in metabolites_to_add.keys()
                 }
 
                 context(
